@@ -1,6 +1,8 @@
 package main
 
 import (
+	"os/exec"
+	"context"
 	"os"
 	"fmt"
 	"strings"
@@ -136,7 +138,15 @@ func propC04(o *out, r *rng, thorough bool) {
 		if r.chance(1, 2) {
 			return nil
 		}
-		return map[string]interface{}{"p": pick(r, vals), "q": pick(r, vals), "x": pick(r, vals)}
+		ps := map[string]interface{}{"p": pick(r, vals), "q": pick(r, vals), "x": pick(r, vals)}
+		// a parameter may be named anything - also like the message of another parameter's binding error, which is
+		// what the parser puts in the place of an unbindable value
+		for _, k := range []string{"p", "q", "x"} {
+			if ev, ok := influxql.BindValue(ps[k]).(influxql.ErrorValue); ok && r.chance(1, 2) {
+				ps[string(ev)] = pick(r, vals)
+			}
+		}
+		return ps
 	}
 	n := 1500
 	if thorough {
@@ -241,10 +251,36 @@ func propC04(o *out, r *rng, thorough bool) {
 		c04One(o, strings.Repeat(";", d)+"SELECT 1 FROM m"+strings.Repeat(" ", d), nil, "semicolons")
 		c04One(o, strings.Repeat("SELECT v FROM m;", d/10+1), nil, "many-statements")
 	}
+	// beyond what a guarded call can survive: about a million nested parentheses end the PROCESS (fatal error: stack
+	// overflow cannot be recovered), so the probe runs in a child process
+	c04StackProbe(o, 100000)
+	c04StackProbe(o, 1000000)
+}
+
+func c04StackProbe(o *out, depth int) {
+	o.count("stack-probe")
+	o.checked()
+	ctx, cancel := context.WithTimeout(context.Background(), 120*time.Second)
+	defer cancel()
+	cmd := exec.CommandContext(ctx, os.Args[0], "stackprobe", fmt.Sprint(depth))
+	outb, err := cmd.CombinedOutput()
+	if err == nil && strings.Contains(string(outb), "returned") {
+		return
+	}
+	first := strings.SplitN(strings.TrimSpace(string(outb)), "\n", 2)[0]
+	class := ""
+	if strings.Contains(string(outb), "stack overflow") || strings.Contains(string(outb), "goroutine stack exceeds") {
+		class = "C04-deep-nesting-stack"
+	}
+	o.fail(class, fmt.Sprintf("ParseStatement on %d nested parentheses ends the process: %v: %s", depth, err, first), map[string]interface{}{"op": "stack_probe", "depth": depth})
 }
 
 func init() {
 	props["C04"] = propC04
+	replayers["stack_probe"] = func(o *out, rp map[string]interface{}) {
+		d, _ := rp["depth"].(float64)
+		c04StackProbe(o, int(d))
+	}
 	replayers["total"] = func(o *out, rp map[string]interface{}) {
 		r := newRng(1)
 		c04One(o, rpStr(rp, "text"), nil, "replay")
